@@ -388,6 +388,14 @@ def main(tier, replay=None):
         rep.coverage["design_negative_multiplier_reachable_inside_iteration"] = "NeverNegativeInside" in san.violated
         fb = tlc.run("FischerBurmeister.tla", "FischerBurmeister.cfg", label="FischerBurmeister")
         tlc.require_ok(fb, rep, "FischerBurmeister")
+        if tier != "quick":
+            # unbounded companion (Apalache / Z3): the same two equivalences for ALL integers and penalties; machinery error on failure
+            import subprocess
+            r = subprocess.run([common.SPECS + "/apalache/run_generic.sh", "FischerBurmeisterAll.tla", "All", "NegControl"],
+                               capture_output=True, text=True)
+            rep.coverage["apalache"] = [l for l in r.stdout.splitlines() if l.startswith("APALACHE")]
+            if r.returncode != 0:
+                rep.machinery("apalache check of FischerBurmeisterAll.tla failed: %s" % r.stdout[-400:])
         rep.add_tlc(fb)
         cases = build_cases(rep, tier, rng)
     traces = []
